@@ -3,6 +3,7 @@ import Driver.Chain
 import Driver.Merkle
 import Driver.Hs
 import Driver.Sync
+import Driver.Disk
 /-
   Line-protocol driver of the executable Lean models. `driver <suite>` reads one request per line on stdin
   and answers one line per request on stdout. One sub-driver per model family (Driver/<Suite>.lean).
@@ -14,4 +15,5 @@ def main (args : List String) : IO Unit :=
   | ["merkle"] => Drv.Merkle.run
   | ["hs"] => Drv.Hs.run
   | ["sync"] => Drv.Sync.run
+  | ["disk"] => Drv.Disk.run
   | _ => do IO.eprintln "usage: driver <suite>"; IO.Process.exit 2
